@@ -70,8 +70,9 @@ var addCmd = &cobra.Command{
 			return errors.New("nothing specified, nothing added")
 		}
 		for _, arg := range args {
-			// any stat error means that there is no such file, e.g. "a/b" where a is a file
-			if _, err := os.Stat(arg); err != nil {
+			// any stat error means that there is no such file, e.g. "a/b" where a is a file.
+			// The spelling is cleaned first, as for the lookup: "f/" or "x/../f" name the file f, not a file that is gone
+			if _, err := os.Stat(filepath.Clean(arg)); err != nil {
 				// If the file does not exist but is registered in the index, delete it from the index
 				// but not delete here, just check it
 				cleanedArg := filepath.Clean(arg)
@@ -92,7 +93,7 @@ var addCmd = &cobra.Command{
 			}
 
 			// If the file does not exist but is registered in the index, delete it from the index
-			if _, err := os.Stat(arg); err != nil {
+			if _, err := os.Stat(filepath.Clean(arg)); err != nil {
 				_, _, isEntryFound := client.Idx.GetEntry([]byte(cleanedArg))
 				if !isEntryFound {
 					// args were validated above, so the entry was deleted by an earlier, identical arg
@@ -110,7 +111,7 @@ var addCmd = &cobra.Command{
 			}
 
 			// directory
-			if f, err := os.Stat(arg); err == nil && f.IsDir() {
+			if f, err := os.Stat(filepath.Clean(arg)); err == nil && f.IsDir() {
 				// walk with the ignore list: neither .goit nor ignored paths beneath the directory are staged
 				filePaths, err := file.GetFilePathsUnderDirectoryWithIgnore(cleanedArg, client.Idx, client.Ignore)
 				if err != nil {
